@@ -1,7 +1,11 @@
 //! C17 — YAML position tables (OpenPositions / EndPositions behind `YamlIndex`): record
 //! traces of the real accessors under arbitrary lookup orders.
 //!
-//! usage: c17 record <out.ndjson> seed=N tables=N [queries=N] [big=N] [yaml=N]
+//! usage: c17 record <out.ndjson> seed=N tables=N [queries=N] [big=N] [bigq=N] [yaml=N] [mode=main|f3]
+//!   mode=main  all families, but no table of the F3 class (monotone starts containing
+//!              text_len with text_len % 64 == 0: text_len is bumped by one) -- so the main
+//!              trace validates in one pass while F3 is a known finding;
+//!   mode=f3    only the families aimed at positions equal to text_len (incl. the F3 class)
 //!        c17 probe                      (prints whether the H4 hook is compiled in)
 //!
 //! Tables are handed to the real code through the public `YamlIndex::from_parts`
@@ -332,15 +336,15 @@ fn gen_yaml(r: &mut Rng, depth: usize, indent: usize, out: &mut String, budget: 
     }
 }
 
-fn yaml_doc(r: &mut Rng) -> Vec<u8> {
+fn yaml_doc(r: &mut Rng, f3: bool) -> Vec<u8> {
     let mut s = String::new();
     let mut budget = r.range(3, 60) as i64;
     let depth = r.range(1, 4) as usize;
     gen_yaml(r, depth, 0, &mut s, &mut budget);
-    if r.chance(1, 4) {
+    if f3 || r.chance(1, 4) {
         s.push_str("tail:"); // null value node at end of input, no newline
     }
-    if r.chance(1, 3) {
+    if f3 || r.chance(1, 3) {
         // pad (with a comment) so that the text length lands on a multiple of 64
         let want = s.len().div_ceil(64) * 64;
         if want > s.len() + 2 {
@@ -525,14 +529,27 @@ fn main() {
         Table { fam: "fixed", tl: 10, starts: vec![0, 3, 10, 10], ends: vec![0, 5, 0, 10] },
         Table { fam: "fixed", tl: 10, starts: vec![0, 0, 2, 2], ends: vec![5, 0, 0, 7] },
     ];
+    let f3 = args.str("mode", "main") == "f3";
     let mut list: Vec<Table> = vec![];
-    list.append(&mut fixed);
-    for t in 0..tables {
-        list.push(gen_table(&mut r, (t % 9) as u64));
-    }
-    for b in 0..nbig {
-        let n = if b == 0 { 20_000 } else { r.range(3_000, 30_000) as usize };
-        list.push(big_table(&mut r, n));
+    if f3 {
+        list.append(&mut fixed);
+        for t in 0..tables {
+            list.push(gen_table(&mut r, if t % 3 == 2 { 5 } else { 1 }));
+        }
+    } else {
+        for t in 0..tables {
+            list.push(gen_table(&mut r, (t % 9) as u64));
+        }
+        for b in 0..nbig {
+            let n = if b == 0 { 20_000 } else { r.range(3_000, 30_000) as usize };
+            list.push(big_table(&mut r, n));
+        }
+        for t in list.iter_mut() {
+            let mono = t.starts.windows(2).all(|w| w[0] <= w[1]);
+            if mono && t.tl % 64 == 0 && t.starts.last().map(|&v| v as usize) == Some(t.tl) {
+                t.tl += 1; // keep the F3 class out of the main trace
+            }
+        }
     }
 
     for t in &list {
@@ -560,7 +577,7 @@ fn main() {
     let mut attempts = 0usize;
     while done < nyaml && attempts < nyaml * 20 {
         attempts += 1;
-        let text = yaml_doc(&mut r);
+        let text = yaml_doc(&mut r, f3);
         let t2 = text.clone();
         let ext = guarded(move || extract_tables(&t2));
         let (s, e) = match ext {
@@ -571,6 +588,9 @@ fn main() {
             Ok(i) => i,
             Err(_) => continue,
         };
+        if !f3 && s.iter().any(|&v| v < 0) {
+            continue; // F3 through the parser: only in mode=f3
+        }
         g += 1;
         done += 1;
         *fam_count.entry("yaml").or_default() += 1;
